@@ -1,3 +1,3 @@
 From Coq Require Import ExtrOcamlBasic NArith ZArith List.
-From LV Require Import lib.Conv model.Semaphore spec.SemaphoreSpec.
-Extraction "model.ml" conv_roots simulate spec_check digest_of.
+From LV Require Import lib.Conv model.Semaphore spec.SemaphoreSpec model.SemaphoreStream.
+Extraction "model.ml" conv_roots simulate spec_check digest_of accept simulate_stream.
